@@ -10,19 +10,23 @@ import (
 var (
 	Uplos   = []int{int(blas.Upper), int(blas.Lower)}
 	Transes = []int{int(blas.NoTrans), int(blas.Trans)}
-	Diags   = []int{int(blas.NonUnit), int(blas.Unit)}
-	Sides   = []int{int(blas.Left), int(blas.Right)}
-	Norms4  = []int{int(lapack.MaxAbs), int(lapack.MaxColumnSum), int(lapack.MaxRowSum), int(lapack.Frobenius)}
-	Norms2  = []int{int(lapack.MaxColumnSum), int(lapack.MaxRowSum)}
-	Bools   = []int{0, 1}
-	Directs = []int{int(lapack.Forward), int(lapack.Backward)}
-	Stores  = []int{int(lapack.ColumnWise), int(lapack.RowWise)}
+	// Transes3 is for the real routines that also accept blas.ConjTrans
+	// (as a synonym of blas.Trans): Dgetrs, Dgels, Dtrtrs, Dtbtrs, Dlatrs, Dlatbs.
+	Transes3 = []int{int(blas.NoTrans), int(blas.Trans), int(blas.ConjTrans)}
+	Diags    = []int{int(blas.NonUnit), int(blas.Unit)}
+	Sides    = []int{int(blas.Left), int(blas.Right)}
+	Norms4   = []int{int(lapack.MaxAbs), int(lapack.MaxColumnSum), int(lapack.MaxRowSum), int(lapack.Frobenius)}
+	Norms2   = []int{int(lapack.MaxColumnSum), int(lapack.MaxRowSum)}
+	Bools    = []int{0, 1}
+	Directs  = []int{int(lapack.Forward), int(lapack.Backward)}
+	Stores   = []int{int(lapack.ColumnWise), int(lapack.RowWise)}
 )
 
-func fUplo() FlagSpec  { return FlagSpec{"uplo", Uplos} }
-func fTrans() FlagSpec { return FlagSpec{"trans", Transes} }
-func fDiag() FlagSpec  { return FlagSpec{"diag", Diags} }
-func fSide() FlagSpec  { return FlagSpec{"side", Sides} }
+func fUplo() FlagSpec   { return FlagSpec{"uplo", Uplos} }
+func fTrans() FlagSpec  { return FlagSpec{"trans", Transes} }
+func fTrans3() FlagSpec { return FlagSpec{"trans", Transes3} }
+func fDiag() FlagSpec   { return FlagSpec{"diag", Diags} }
+func fSide() FlagSpec   { return FlagSpec{"side", Sides} }
 
 // TriRef returns the referenced-position predicate of a triangular operand.
 func TriRef(uplo int) func(i, j int) bool {
@@ -91,7 +95,7 @@ func init() {
 			return impl.Dgetf2(m, n, a, lda, ipiv)
 		}),
 		&Routine{
-			Name: "Dgetrs", Dims: []string{"n", "nrhs"}, Flags: []FlagSpec{fTrans()},
+			Name: "Dgetrs", Dims: []string{"n", "nrhs"}, Flags: []FlagSpec{fTrans3()},
 			Layout: func(b *Builder) {
 				b.Flag("trans")
 				n, nrhs := b.Dim("n"), b.Dim("nrhs")
